@@ -77,6 +77,7 @@ type loopInfo struct {
 	n      int // ordinal in source
 	spec   *LoopSpec
 	entry  *State // state at loop entry (after join, before havoc)
+	pos    token.Pos
 }
 
 type Translator struct {
@@ -712,6 +713,9 @@ func (t *Translator) findLoops() {
 			}
 		}
 		li.n = best + 1
+		if best >= 0 {
+			li.pos = stmts[best].Pos()
+		}
 		if t.spec != nil && li.n > 0 {
 			li.spec = t.spec.Loops[li.n]
 		}
@@ -966,6 +970,9 @@ func (t *Translator) invEnv(st *State, li *loopInfo) *Env {
 		if r := t.rangeOfNext[li.header]; r != nil {
 			env.seen = st.iters[r]
 		}
+		if li.entry != nil {
+			env.pre = li.entry.heap
+		}
 	}
 	return env
 }
@@ -981,7 +988,7 @@ func (t *Translator) enterLoop(li *loopInfo, ins []edgeIn) *State {
 	}
 	li.entry = st.clone()
 	label := fmt.Sprintf("loop%d", li.n)
-	pos := t.w.pos(li.header.Instrs[0].Pos())
+	pos := t.w.pos(li.pos)
 	// init obligations
 	if li.spec != nil {
 		env := t.invEnv(st, li)
@@ -1047,10 +1054,20 @@ func (t *Translator) enterLoop(li *loopInfo, ins []edgeIn) *State {
 	return h
 }
 
-func (t *Translator) backEdge(li *loopInfo, st *State) {
+func (t *Translator) backEdge(li *loopInfo, st *State, from *ssa.BasicBlock) {
 	label := fmt.Sprintf("loop%d", li.n)
-	pos := t.w.pos(li.header.Instrs[0].Pos())
+	pos := t.w.pos(li.pos)
+	for i := len(from.Instrs) - 1; i >= 0; i-- {
+		if _, isDbg := from.Instrs[i].(*ssa.DebugRef); isDbg {
+			continue
+		}
+		if p := from.Instrs[i].Pos(); p.IsValid() {
+			pos += "<-" + t.w.pos(p)
+			break
+		}
+	}
 	if li.spec != nil {
+		t.cover(st, label+".body", pos)
 		env := t.invEnv(st, li)
 		for _, c := range li.spec.Invs {
 			if c.Free {
